@@ -13,11 +13,12 @@ AUDIT = 'Audit/C06.lean'
 ANCHORS = ['txtorcon/socks.py']
 RULE = ('targets: host names of length 1, 2, 63, 64, 254, 255, 256, 300 and random lengths over [a-z0-9.-], IDNA-looking and non-ASCII names, '
         'IPv4 boundary and random literals, IPv6 boundary and random literals; ports 0, 1, 255, 256, 65535 and random (quick) / all 65536 '
-        'ports for six targets (thorough); request types CONNECT, RESOLVE, RESOLVE_PTR. non-trivial = every case (each sends or refuses a '
+        'ports for six targets (thorough); request types CONNECT, RESOLVE, RESOLVE_PTR; plus, for three targets x three types, eight answers to the greeting other than method 0 selected (no request may follow). non-trivial = every case (each sends or refuses a '
         'request); distinct = distinct (type, host, port)')
 TRUSTED = ["ipaddress.ip_address / inet_pton classify and pack the textual target (cross-checked by the harness's own use of socket.inet_pton)",
            "struct.pack semantics as interpreted by SocksReq.structPack (codes B, H, <n>s, prefix !)"]
-ASSUMPTIONS = ["the server selects method 0 (C05 covers the other replies)"]
+ASSUMPTIONS = ["the machine's reaction to the server's answers is C05's model; here other answers to the greeting are run against the "
+               "implementation and must produce no request"]
 EXHAUSTIVE = {'quick': False, 'thorough': True}
 CMD = {'CONNECT': 1, 'RESOLVE': 0xF0, 'RESOLVE_PTR': 0xF1}
 
@@ -39,6 +40,9 @@ V4 = ['0.0.0.0', '255.255.255.255', '127.0.0.1', '10.0.0.255', '1.2.3.4']
 V6 = ['::', '::1', 'ffff:ffff:ffff:ffff:ffff:ffff:ffff:ffff', '2001:db8::1', 'fe80::dead:beef', '::ffff:1.2.3.4']
 
 
+OTHER_SELECTIONS = ['0502', '0501', '05ff', '0580', '0400', '0000', '05', '']
+
+
 def corpus():
     return [{'req': 'CONNECT', 'host': '2001:db8::1', 'port': 443},
             {'req': 'RESOLVE', 'host': 'héllo.com', 'port': 0},
@@ -56,6 +60,12 @@ def gen_cases(rng, tier):
             yield {'req': 'CONNECT', 'host': h, 'port': p}
         yield {'req': 'RESOLVE', 'host': h, 'port': 0}
         yield {'req': 'RESOLVE_PTR', 'host': h, 'port': 0}
+    # "only after the server selects it": any other answer to the greeting (another method, no acceptable method, another
+    # version, an incomplete answer, nothing) — and no request goes out
+    for h in ['example.com', '1.2.3.4', '2001:db8::1']:
+        for req in ('CONNECT', 'RESOLVE', 'RESOLVE_PTR'):
+            for sel in OTHER_SELECTIONS:
+                yield {'req': req, 'host': h, 'port': 443 if req == 'CONNECT' else 0, 'sel': sel}
     if tier == 'thorough':
         for h in ['example.com', 'c' * 255, '1.2.3.4', '255.255.255.255', '2001:db8::1', 'a']:
             for p in range(65536):
@@ -69,7 +79,7 @@ def run_impl(c):
         return ['ctor-raised ' + type(e).__name__]
     outs = im.do(['connect'])
     pre = list(outs)
-    outs += im.do(['feed', '0500'])
+    outs += im.do(['feed', c.get('sel', '0500')])
     return outs
 
 
@@ -120,13 +130,19 @@ def run_cases(cases, drv, tier):
         model = spec = None
         corr_ok = prop_ok = None
         view_m = ['wire', writes[1]] if len(writes) > 1 else ['refused']
+        selected = c.get('sel', '0500') == '0500'
         if outs is not None:
             enc, decg, dec = outs[3 * k:3 * k + 3]
             model = ['wire', enc.split(' ')[1]] if enc.startswith('some') else ['refused']
+            if not selected:
+                model = ['refused']          # nothing is encoded: the method was not selected (C05's model has the machine)
             corr_ok = view_m == model
             # the property, decided by the Lean RFC 1928 decoder on the implementation's own bytes
             greet_ok = decg == 'methods 00' and im[:1] == ['write 050100']
-            if exp == 'refused':
+            if not selected:
+                spec = ['greeting-ok', 'no-request']
+                view = ['greeting-ok' if greet_ok else 'greeting-bad:' + decg, 'no-request' if len(writes) < 2 else 'sent:' + writes[1]]
+            elif exp == 'refused':
                 spec = ['greeting-ok', 'refused']
                 view = ['greeting-ok' if greet_ok else 'greeting-bad:' + decg, 'refused' if len(writes) < 2 else 'sent']
             else:
@@ -142,7 +158,7 @@ def run_cases(cases, drv, tier):
         else:
             im_view = im
         kind, _ = socksh.classify_target(c['host'])
-        tags = [c['req'], kind, 'refuse-expected' if exp == 'refused' else 'encodable', 'port=%s' % ('0' if c['port'] == 0 else 'max' if c['port'] == 65535 else 'n')]
+        tags = [c['req'], kind, 'not-selected' if not selected else 'refuse-expected' if exp == 'refused' else 'encodable', 'port=%s' % ('0' if c['port'] == 0 else 'max' if c['port'] == 65535 else 'n')]
         res.append(Result(c, im_view, model, spec, corr_ok=corr_ok, prop_ok=prop_ok, in_h=True, nontrivial=True, tags=tags))
     return res
 
